@@ -19,6 +19,7 @@ type UnaryCase struct {
 	ReqKind int    `json:"reqKind"` // 0 pointer, 1 nil, 2 string
 	ErrKind int    `json:"errKind"` // 0 nil, 1 plain error, 2 context error
 	HasDl   bool   `json:"hasDeadline"`
+	Nested  int    `json:"nested"` // 0 fresh context; 1 context received by the invoker of another intercepted unary call; 2 Context() of an intercepted stream
 	Failure string `json:"failure,omitempty"`
 }
 
@@ -30,6 +31,21 @@ func RunUnary(c *UnaryCase) string {
 		ctx, cancel = context.WithTimeout(ctx, time.Hour)
 	}
 	defer cancel()
+	switch c.Nested {
+	case 1:
+		grpcgcp.GCPUnaryClientInterceptor(ctx, "/other", &msg{100}, &msg{101}, nil, func(ictx context.Context, _ string, _, _ interface{}, _ *grpc.ClientConn, _ ...grpc.CallOption) error {
+			ctx = ictx
+			return nil
+		})
+	case 2:
+		fs := &fakeStream{ctx: nil, c: &Case{}}
+		st, _ := grpcgcp.GCPStreamClientInterceptor(ctx, &grpc.StreamDesc{}, nil, "/other", func(sctx context.Context, _ *grpc.StreamDesc, _ *grpc.ClientConn, _ string, _ ...grpc.CallOption) (grpc.ClientStream, error) {
+			fs.ctx = sctx
+			return fs, nil
+		})
+		st.SendMsg(&msg{200})
+		ctx = st.Context()
+	}
 	var req interface{}
 	switch c.ReqKind {
 	case 0:
@@ -67,6 +83,12 @@ func RunUnary(c *UnaryCase) string {
 		}
 		if ictx.Value(userKey{}) != "user-value" {
 			fail = "caller's context value lost"
+		}
+		if c.Nested != 0 {
+			gr, _, _ := grpcgcp.VerifCtxMsgs(ictx)
+			if gr != req {
+				fail = fmt.Sprintf("context derived from another intercepted call: the picker sees request %v of that call, not this call's %v", gr, req)
+			}
 		}
 		d0, ok0 := ctx.Deadline()
 		d1, ok1 := ictx.Deadline()
